@@ -65,6 +65,23 @@ def _overlap_conds(tier):
     return conds
 
 
+def _listener_conds(tier):
+    """commands issued by listeners (harness/c04.py:h_listener)"""
+    names = ["STARTING", "START", "STOPPING", "STOP", "TIME_CHANGED", "START_REPLICATION", "END_REPLICATION", "WARMUP"]
+    tops = {1: "start", 2: "step", 4: "run_up_to", 5: "run_up_to_including"}
+    conds = []
+    q = tier == "quick"
+    for et, nm in enumerate(names):
+        for top in ((1, 2) if q else (1, 2, 4, 5)):
+            conds.append(Cond(f"listener of {nm}_EVENT issues a command during {tops[top]}", "c04", "h_listener",
+                              {"VF_LISTEN": et, "VF_TOP": top}, 900 if q else 3000))
+    if q:
+        for et in (1, 3, 4):
+            conds.append(Cond(f"listener of {names[et]}_EVENT issues a command during run_up_to", "c04", "h_listener",
+                              {"VF_LISTEN": et, "VF_TOP": 4}, 900))
+    return conds
+
+
 def run(ctx):
     import pydsol.core.simulator as sm
     D, S = sm.DEVSSimulator, sm.Simulator
@@ -82,6 +99,10 @@ def run(ctx):
                           "event issues one symbolic command (all kinds except cleanup)",
         "model": "events at 1,2,2,4 (one with maximum priority), replication 0..5",
     }
+    ctx.bounds["listener-issued"] = (
+        "a listener of one of the eight notification types issues one command (start, step, stop, run_up_to(a), "
+        "run_up_to_including(a); kind and argument symbolic) the first time it is notified, during start / step (quick: also "
+        "run_up_to for three types; thorough: all four top-level commands); warm-up time and bound symbolic; quiescent oracle of part 2")
     ctx.bounds["overlap (part 2)"] = (
         "scenario = initialize, then commands from {start, stop, run_up_to(b), run_up_to_including(b)}; before the LAST command the "
         "run thread is v statements into its transition (v = 0..48: any position from 'just started' to 'terminated'), the caller "
@@ -104,7 +125,9 @@ def run(ctx):
         "virtual clock; bare except of SimEvent.execute narrowed; replay uses real threads and checks threading.enumerate()",
     ]
     ctx.outside = ["schedules with more than one pre-emption inside a command, pre-emption inside a statement, more than one caller thread",
-                   "end_replication(), step(), initialize() and cleanup() overlapping a running run thread; commands issued by listeners",
+                   "end_replication(), step(), initialize() and cleanup() overlapping a running run thread",
+                   "a stop() admitted while the state is still STARTING (only reachable from a second caller thread or from a listener of "
+                   "STARTING / START_REPLICATION inside start()): whether it must prevent the start is not decided",
                    "cleanup() or initialize() issued from inside a handler while running (terminating strategies)",
                    "end_replication() issued from a handler that runs inside step() (wakes the run thread while the caller is active)"]
-    ctx.crosshair(_conds(ctx.tier) + _overlap_conds(ctx.tier))
+    ctx.crosshair(_conds(ctx.tier) + _listener_conds(ctx.tier) + _overlap_conds(ctx.tier))
